@@ -668,6 +668,13 @@ def gssvx_case(rng, prec, quick, kind='mixed', nmax=None):
         c['colpat'] = rng.choice(['zg', 'gz', 'tg', 'gtg', 'zgzg', 'g', 'gg'])
     if rng.random() < 0.1 and c.get('nrhs', 0) >= 2 and 'colpat' not in c:
         c['colpat'] = rng.choice(['zg', 'gz', 'tg', 'gzg'])
+    if kind != 'svd' and c['fam'] not in ('svd', 'wilk') and not c.get('exact') and not c.get('unitri') and rng.random() < 0.15:
+        # threshold 0 with tiny diagonal entries: the diagonal is kept as pivot, the factorization is inaccurate by the growth 2^-e
+        # although the matrix is well conditioned, and refinement needs several (up to all five) steps - its last step included
+        c['u'] = 0.0; c['ord'] = 0; c['n'] = min(max(c['n'], 3), 16); c['fam'] = rng.choice(['dense', 'band', 'rand']); c['dens'] = 0.7; c['bl'] = 2; c['bu'] = 2
+        for k2 in ('cond', 'svmode', 'bs', 'ncpl', 'rscale', 'cscale', 'dom', 'rhs'): c.pop(k2, None)
+        c['vals'] = 'generic'; c['tinydiag'] = rng.choice([1, 1, 2]); c['tinyexp'] = -rng.choice(range(36, 53) if prec in 'dz' else range(14, 24))     # contraction 2^e*u between eps^(1/5) and 1/2: all five steps are productive
+        c['nrhs'] = max(c.get('nrhs', 1), 1); c['equil'] = rng.choice([0, 0, 1])
     return c
 
 X_COUNTERS = ('tight_judged', 'nrhs', 'premised', 'rcond_judged', 'pipe_takes', 'thr_panels')
@@ -1128,18 +1135,19 @@ def gen_c08(ctx):
         c['mem'] = rng.choice([0, 0, 1])
         if c['mem']: c['lwfrac'] = 1.6
         if rng.random() < 0.5: c['pmode'] = rng.choice([1, 2]); c['pert'] = rng.randrange(1, 1 << 30)
+        if rng.random() < 0.5: c['pp'] = 1      # refactorizations receive perm_r / perm_c in other arrays than the call before (old ones poisoned)
         out.append(({'variant': 'asan' if i % 3 == 0 else 'plain', 'prec': prec}, c))
     return out
 
-H_COUNTERS = ('work_allocs', 'nops', 'nfact', 'nrefact', 'nsolve', 'queries', 'usepr_kept', 'usepr_changed', 'usepr_undec', 'inbuf_checked', 'allocs')
+H_COUNTERS = ('pp_moves', 'work_allocs', 'nops', 'nfact', 'nrefact', 'nsolve', 'queries', 'usepr_kept', 'usepr_changed', 'usepr_undec', 'inbuf_checked', 'allocs')
 
 PROPS['C08'] = dict(gen=gen_c08, relevant=('C08|', 'C09|refact', 'C09|first'), counters=H_COUNTERS, batch=15, timeout_case=90.0,
                     nontrivial=lambda r: (r.get('result') or {}).get('nrefact', 0) + (r.get('result') or {}).get('nsolve', 0) >= 1,
                     rule='random call sequences (length <=4 quick / <=10 thorough) over {first factor, refactor with/without row-pivot reuse and new values, solve with existing factors (N/T/C, new B), destroy + first factor again} '
                     'on one pattern, thread count varying between calls, internal and caller-supplied workspace, plain and ASan builds; new values either keep old pivots valid or re-rank column maxima by factors 1/64..128; '
                     'distinct = sha1(case); non-trivial = at least one refactorization or reuse-solve executed; oracle after every call: reconstruction against the values current at that call, residual bound, structural validator; '
-                    'with pivot reuse an extended-precision replay of the old row order decides whether perm_r must be identical or must change; solves must leave A, L, U and both permutations bit-identical',
-                    floors={'nrefact': 300, 'nsolve': 300, 'usepr_kept': 20, 'usepr_changed': 20})
+                    'with pivot reuse an extended-precision replay of the old row order decides whether perm_r must be identical or must change; solves must leave A, L, U and both permutations bit-identical; in half of the cases every refactorization is handed the permutations in new arrays (same contents, the old arrays poisoned: pp_moves)',
+                    floors={'nrefact': 300, 'nsolve': 300, 'usepr_kept': 20, 'usepr_changed': 20, 'pp_moves': 100})
 
 # ---- C14 ----
 def gen_c14(ctx):
@@ -1372,11 +1380,12 @@ def gen_c18(ctx):
                 'fam:band;n:24;ops:F,S0;mem:1;lwbytes:2000;nps:1', 'fam:arrow;n:16;ops:X;nps:2', 'fam:band;n:12;ops:Q;nps:1', 'fam:grid;n:50;ops:V,E;nps:4',
                 'fam:rand;n:60;dens:0.08;ops:F,S1,D;nps:8;w:1;relax:1', 'fam:chain;n:33;ops:V1,E1;nps:3', 'fam:dense;n:9;ops:F,R0,R1,D;nps:2',
                 'fam:forest;n:44;bs:3;ops:F,D,F,S2;nps:4', 'fam:band;n:5;ops:E;nps:1', 'fam:grid;n:64;ops:F,S0,D;nps:1;w:8;relax:4;maxsup:16']
-    NP = 14 if ctx.quick else 60
+    NP = 18 if ctx.quick else 60
     probes = []
     for i in range(NP):
         c = hist_base(rng, ctx.quick, nmax=44)
         c['ops'] = rng.choice(['F,S0', 'F,S1', 'V', 'E'])
+        if i % 3 == 2: c['ops'] = rng.choice(['Q', 'Q,F,S0']); c['n'] = min(c['n'], 24)     # the answer of a workspace query (bytes + n, reported as info) is a result too: smaller matrices than most prefixes
         c['nps'] = '1'
         probes.append((rng.choice(PRECS), c))
     k = 0
@@ -1432,7 +1441,7 @@ def gen_c18(ctx):
 def _c18_sig(r):
     # one thread: every output bit; several threads: the supernode partition depends on the schedule, so only what every
     # schedule must agree on is compared (which calls succeeded, with which info) - the values are judged by the C08 oracles
-    return r['result'].get('digest') if str(r['case'].get('nps', '1')) == '1' else r['result'].get('infos')
+    return (r['result'].get('digest'), r['result'].get('infos')) if str(r['case'].get('nps', '1')) == '1' else r['result'].get('infos')
 
 def post_c18(ctx, recs, out):
     base = {}
